@@ -91,12 +91,16 @@ pub struct Felt {
     pub class: &'static str,
 }
 
-pub const FELT_W: [u32; 7] = [3, 2, 4, 4, 2, 5, 2];
+pub const FELT_W: [u32; 8] = [3, 2, 4, 4, 2, 5, 2, 2];
 
 /// canonical value < p, weighted towards canonical-side boundaries and stored-limb boundary patterns
 pub fn felt(s: &mut Src, m: Md) -> Felt {
     let p = m.p();
     match s.weighted(&FELT_W) {
+        7 => {
+            let x = stored_pattern(s, m);
+            Felt { v: (x * m.rinv()) % p, class: "stored-pattern" }
+        }
         6 => {
             // top-heavy stored value: stored = p - 1 - d with d small / 64-bit / 128-bit (drives Montgomery carries)
             let d = match s.choose(3) {
@@ -195,7 +199,48 @@ pub fn limb_pattern(s: &mut Src) -> BigUint {
 pub fn stored_pattern(s: &mut Src, m: Md) -> BigUint {
     let p = m.p();
     let j = BigUint::from(s.choose16(401) as u32);
-    match s.choose(5) {
+    match s.choose(8) {
+        5 => {
+            // a halved or doubled limb pattern: (B + p)/2 for odd B, B/2 for even B, 2B mod p
+            // (binary-Euclid inversion and div2 produce exactly such values from their predecessors)
+            let mut b = limb_pattern(s);
+            while &b >= p {
+                b -= p;
+            }
+            match s.choose(3) {
+                0 => {
+                    if b.bit(0) {
+                        (b + p) >> 1u32
+                    } else {
+                        b >> 1u32
+                    }
+                }
+                1 => (b << 1u32) % p,
+                _ => {
+                    let b2 = if b.bit(0) { (b + p) >> 1u32 } else { b >> 1u32 };
+                    if b2.bit(0) {
+                        (b2 + p) >> 1u32
+                    } else {
+                        b2 >> 1u32
+                    }
+                }
+            }
+        }
+        6 | 7 => {
+            // low half congruent to a small rational multiple c/d of p (mod 2^128), high half arbitrary: makes the
+            // operands of the first subtract-and-halve steps of a binary gcd agree in their low limbs
+            let c = BigUint::from(1 + s.choose(5) as u32);
+            let d = BigUint::from((2 * s.choose(4) + 1) as u32); // odd: invertible mod 2^128
+            let m128 = BigUint::one() << 128;
+            let dinv = inv_mod_2_256(&d) % &m128;
+            let low = ((p % &m128) * c % &m128) * dinv % &m128;
+            let high = BigUint::from(s.u128());
+            let mut x = (high << 128) + low;
+            while &x >= p {
+                x -= p;
+            }
+            x
+        }
         0 => j % p,
         1 => (p - 1u32 - j) % p,
         2 => (&zp::c().two256 - p + j) % p,
@@ -227,7 +272,15 @@ pub fn inv_mod_2_256(a: &BigUint) -> BigUint {
 pub fn felt_pair(s: &mut Src, m: Md) -> (Felt, Felt, &'static str) {
     let p = m.p();
     let a = felt(s, m);
-    match s.weighted(&[8, 2, 2, 2, 2, 2, 2, 3, 3, 2]) {
+    match s.weighted(&[8, 2, 2, 2, 2, 2, 2, 3, 3, 2, 3]) {
+        10 => {
+            // inverse-targeted: a = 1/c(t), so that the stored result of inverse(a) is the pattern t
+            let t = stored_pattern(s, m);
+            let ct = (&t * m.rinv()) % p;
+            let av = zp::inv_mod(&ct, p).unwrap_or_else(BigUint::one);
+            let b = felt(s, m);
+            (Felt { v: av, class: "derived" }, b, "inverse-stored-target")
+        }
         0 => {
             let b = felt(s, m);
             (a, b, "independent")
